@@ -26,7 +26,7 @@ let () =
     | fmt :: fuel :: rest ->
         (match Sexp.parse (String.concat " " rest) with
          | L (A "jsfile" :: name :: msgs :: body) ->
-             let o = { o_fmt = (if int_field fmt = 6 then ES6 else ES5); o_msgs = msgs_of msgs; o_order = sort_strings } in
+             let o = { o_fmt = (if int_field fmt = 6 then ES6 else ES5); o_msgs = msgs_of msgs; o_order = (fun l -> List.rev l) } in
              (match gen_file o (nat_of_int (int_field fuel)) (xs (atom name)) (List.map node_of body) with
               | Ok cs -> ["ok"; hex_of_bstr (render_chunks is_print_tbl cs); "#" ^ string_of_int (List.length cs)]
               | Err m -> ["err"; hex_of_bstr m] | Crash m -> ["crash"; hex_of_bstr m]
@@ -39,7 +39,7 @@ let () =
     | fmt :: fuel :: rest ->
         (match Sexp.parse (String.concat " " rest) with
          | L (A "jsfile" :: name :: msgs :: body) ->
-             let o = { o_fmt = (if int_field fmt = 6 then ES6 else ES5); o_msgs = msgs_of msgs; o_order = sort_strings } in
+             let o = { o_fmt = (if int_field fmt = 6 then ES6 else ES5); o_msgs = msgs_of msgs; o_order = (fun l -> List.rev l) } in
              (match gen_file o (nat_of_int (int_field fuel)) (xs (atom name)) (List.map node_of body) with
               | Ok cs -> "ok" :: List.filter_map (function CStrLit (q, s) -> Some (string_of_int (int_of_n q) ^ ":" ^ hex_of_bstr s) | _ -> None) cs
               | _ -> ["fail"])
